@@ -17,6 +17,33 @@ from ..types import Types
 SKIP_FILES = ('chi/plots', 'chi/library')
 
 
+def _guarded_type(repo, call):
+    """`x.m(..)` evaluated only when `isinstance(x, chi.K)` holds (the true
+    arm of a conditional expression / the body of an `if` with that test):
+    the receiver is a K there."""
+    recv = call.func.value
+    if not isinstance(recv, ast.Name):
+        return None
+    child, cur = call, getattr(call, '_parent', None)
+    while cur is not None and not isinstance(cur, (ast.FunctionDef,
+                                                   ast.ClassDef)):
+        test = None
+        if isinstance(cur, ast.IfExp) and child is cur.body:
+            test = cur.test
+        if isinstance(cur, ast.If) and any(child is b for b in cur.body):
+            test = cur.test
+        if isinstance(test, ast.Call) and U(test.func) == 'isinstance' \
+                and len(test.args) == 2 and U(test.args[0]) == recv.id:
+            names = [U(e).split('.')[-1] for e in (
+                test.args[1].elts if isinstance(test.args[1], ast.Tuple)
+                else [test.args[1]])]
+            names = [n_ for n_ in names if repo.has_cls(n_)]
+            if len(names) == 1:
+                return (names[0], frozenset())
+        child, cur = cur, getattr(cur, '_parent', None)
+    return None
+
+
 def _sites(repo, T, base_filter=None):
     """Yield (rel, cls, fn, call, type) for calls on chi-typed receivers."""
     for rel, cls, fn in repo.all_functions():
@@ -25,6 +52,8 @@ def _sites(repo, T, base_filter=None):
         for n in ast.walk(fn):
             if isinstance(n, ast.Call) and isinstance(n.func, ast.Attribute):
                 t = T.type_of(n.func.value, cls, fn)
+                if not t:
+                    t = _guarded_type(repo, n)
                 if not t or t[0] == 'list':
                     continue
                 if base_filter and not base_filter(t):
